@@ -1,7 +1,7 @@
 """C17 - see properties.jsonl; DESIGN.md section 5."""
 from ._generic import run_property
 
-EXPLANATION = 'Bounded / enumerated (nothing here is a deductive proof). Finite table lemma executed on the real code: for every (physical type x converted type x logical type) combination the format allows for a flat leaf, the dtype typemap()/ParquetFile._dtypes announces is compatible with what convert(read_plain(...)) returns (40 combinations, complete for that finite table; backend = execution, not SMT). Plus: metadata-only answers (columns, dtypes, categories, cats, index, counts) vs the frame actually read, over read-option tuples and own/foreign/partitioned files.'
+EXPLANATION = ('P (discharged for all sizes, symbolic execution of the real source + z3): writer.make_metadata column bookkeeping and pandas metadata (one schema element / one pandas-metadata column per frame column, names normalised, index columns), ParquetFile._dtypes column independence and override handling, derived-handle state and counts (__getitem__ / __setstate__ / _set_attrs / count / info / __len__), read-option provenance from to_pandas down to read_col, writer.consolidate_categories and its call sites. ENUMERATION (executed on the real code, complete for the finite table, not a deductive proof): for every (physical type x converted type x logical type) combination the format allows for a flat leaf, the dtype typemap()/ParquetFile._dtypes announces is compatible with what convert(read_plain(...)) returns; the pandas-metadata dtype rows. B (bounded): metadata-only answers (columns, dtypes, categories, cats, index, counts) vs the frame actually read, over read-option tuples and own/foreign/partitioned files.')
 
 
 def p_parts():
@@ -13,7 +13,7 @@ def p_parts():
 
 
 def run(ctx):
-    return run_property(ctx, 'exploration', EXPLANATION, p_parts=p_parts(), b_modules=['c17_meta_vs_read'],
+    return run_property(ctx, 'other', EXPLANATION, p_parts=p_parts(), b_modules=['c17_meta_vs_read'],
                         assumptions=["pandas / numpy / cramjam behaviour inside every opaque value",
                                      "the oracle (plain pandas / the spec library under /verif/spec) is a faithful reading of the property"],
                         trusted=["bounded layer: enumerated inputs only; nothing outside the stated bound is covered"])
